@@ -167,19 +167,40 @@ func (d *Disk) Crash(torn TornChooser) int {
 	return kept
 }
 
+// Walk visits every file and directory below dir in sorted order (MemFS.Iterate
+// only reports base names, so the tree is walked with List+Stat).
+func (d *Disk) Walk(dir string, f func(path string, isDir bool)) {
+	names, err := d.mem.List(dir)
+	if err != nil {
+		return
+	}
+	sort.Strings(names)
+	for _, n := range names {
+		p := d.mem.PathJoin(dir, n)
+		st, err := d.mem.Stat(p)
+		if err != nil {
+			continue
+		}
+		f(p, st.IsDir())
+		if st.IsDir() {
+			d.Walk(p, f)
+		}
+	}
+}
+
 // SyncAll makes everything durable (used to build initial images).
 func (d *Disk) SyncAll() {
 	d.mu.Lock()
 	defer d.mu.Unlock()
 	d.pending = map[string]*pendingAppend{}
-	var dirs, files []string
-	_ = d.mem.Iterate(func(path string, isDir bool, refs int32) error {
+	dirs := []string{"/"}
+	var files []string
+	d.Walk("/", func(path string, isDir bool) {
 		if isDir {
 			dirs = append(dirs, path)
 		} else {
 			files = append(files, path)
 		}
-		return nil
 	})
 	for _, p := range files {
 		if f, err := d.mem.OpenForAppend(p); err == nil {
@@ -193,33 +214,41 @@ func (d *Disk) SyncAll() {
 			_ = f.Close()
 		}
 	}
-	if f, err := d.mem.OpenDir("/"); err == nil {
-		_ = f.Sync()
-		_ = f.Close()
-	}
 }
 
-// Snapshot returns path -> content for all files and path -> "" marker for
-// directories (key suffixed with "/"), for before/after comparisons.
+// ReadFile returns the content of a file straight from the disk (no
+// operation is counted, nothing is injected).
+func (d *Disk) ReadFile(path string) ([]byte, error) {
+	f, err := d.mem.Open(path)
+	if err != nil {
+		return nil, err
+	}
+	defer f.Close()
+	st, err := f.Stat()
+	if err != nil {
+		return nil, err
+	}
+	buf := make([]byte, st.Size())
+	if len(buf) > 0 {
+		if _, err := f.ReadAt(buf, 0); err != nil && err != io.EOF {
+			return nil, err
+		}
+	}
+	return buf, nil
+}
+
+// Snapshot returns path -> content for all files and path+"/" -> "" for
+// directories, for before/after comparisons.
 func (d *Disk) Snapshot() map[string]string {
 	out := map[string]string{}
-	_ = d.mem.Iterate(func(path string, isDir bool, refs int32) error {
+	d.Walk("/", func(path string, isDir bool) {
 		if isDir {
 			out[path+"/"] = ""
-			return nil
+			return
 		}
-		f, err := d.mem.Open(path)
-		if err != nil {
-			return nil
+		if b, err := d.ReadFile(path); err == nil {
+			out[path] = string(b)
 		}
-		defer f.Close()
-		st, _ := f.Stat()
-		buf := make([]byte, st.Size())
-		if len(buf) > 0 {
-			_, _ = f.ReadAt(buf, 0)
-		}
-		out[path] = string(buf)
-		return nil
 	})
 	return out
 }
@@ -424,8 +453,22 @@ func (v *View) Stat(name string) (os.FileInfo, error) {
 	if err, _ := v.pre(OpStat, name, 0); err != nil {
 		return nil, err
 	}
-	return v.d.mem.Stat(name)
+	fi, err := v.d.mem.Stat(name)
+	if err != nil {
+		return nil, err
+	}
+	// MemFS keeps the name inside the node and changes it on Rename, also when
+	// the rename is later lost in a crash; a real file system reports the name
+	// that was asked for
+	return namedInfo{FileInfo: fi, name: v.d.mem.PathBase(name)}, nil
 }
+
+type namedInfo struct {
+	os.FileInfo
+	name string
+}
+
+func (n namedInfo) Name() string { return n.name }
 
 // PathBase implements FS.
 func (v *View) PathBase(path string) string { return v.d.mem.PathBase(path) }
